@@ -287,7 +287,7 @@ def check_tr(chk, F):
                    F.adts[TR]["span"])
     # decided by evaluating the impls on model values that differ in exactly one field
     from ..interp import some, NONE
-    TAPTREE = "descriptor::tr::TapTree"
+    TAPTREE = "descriptor::tr::taptree::TapTree"
 
     def tree(names):
         return some(Adt(TAPTREE, "TapTree", {"depths_leaves": PyVec([(1, n) for n in names])}))
